@@ -64,3 +64,14 @@ func Renameat2(olddirfd int, oldpath string, newdirfd int, newpath string, flags
 
 func Rename(from, to string) error { return vfs.Rename(from, to) }
 func Unlink(path string) error    { return vfs.Remove(path) }
+
+// Write and Writev: the raw system calls (short counts are returned as such, see vfs.RawWrite).
+func Write(fd int, p []byte) (int, error) { return vfs.RawWrite(fd, p) }
+
+func Writev(fd int, iovs [][]byte) (int, error) {
+	var all []byte
+	for _, b := range iovs {
+		all = append(all, b...)
+	}
+	return vfs.RawWrite(fd, all)
+}
